@@ -955,6 +955,12 @@ class Executor:
             if name == "get":
                 if isinstance(args[0], (str, int)):
                     return [(o.items.get(args[0], args[1] if len(args) > 1 else NONE), st)]
+            if name == "setdefault" and args and isinstance(args[0], (str, int)):
+                d = dict(o.items)
+                if args[0] not in d:
+                    d[args[0]] = args[1] if len(args) > 1 else NONE
+                    setv(PyDict(d))
+                return [(d[args[0]], st)]
             if name == "pop" and isinstance(args[0], (str, int)):
                 d = dict(o.items)
                 if args[0] in d:
